@@ -373,8 +373,10 @@ class DATE_AND_TIME(ElementaryDataType):
     size = 6  # UDINT time of day + UINT date
 
     @classmethod
-    def encode(cls, time: int, date: int, *args, **kwargs) -> bytes:
+    def encode(cls, time, date: Optional[int] = None, *args, **kwargs) -> bytes:
         try:
+            if date is None:  # T.encode(value): the (time, date) pair that decode returns
+                time, date = time
             return UDINT.encode(time) + UINT.encode(date)
         except Exception as err:
             raise DataError(f"Error packing {time!r} as {cls.__name__}") from err
